@@ -126,6 +126,12 @@ def _entry_job(cfg) -> Obligation:
                 acc = e.id.split(":")[-1]
                 spellings = [n] + [p + n for p in prefixes] + [p + acc for p in prefixes]
                 ref_comp = _comp_outcome(n, mult)
+                # an earlier, coarsely rounded query of the same spelling (precision is a per-call option: what a spelling
+                # means must not depend on what was asked before)
+                try:
+                    mod_mass(n, monoisotopic=mono, precision=2)
+                except ValueError:
+                    pass
                 for sp in spellings:
                     try:
                         got = mod_mass(Mod(sp, mult), monoisotopic=mono)
@@ -158,6 +164,10 @@ def main(p):
                 return ("value", pt.mod_mass(Mod(text, p["mult"]), monoisotopic=p["mono"]))
             except ValueError as err:
                 return ("error", type(err).__name__)
+        try:
+            pt.mod_mass(n, monoisotopic=p["mono"], precision=2)      # the earlier rounded query (as in the symbolic run)
+        except ValueError:
+            pass
         ref = outcome(n)        # the same mass - or the same error - through every spelling
         for sp in [q + n for q in prefixes] + [q + acc for q in prefixes]:
             got = outcome(sp)
